@@ -64,9 +64,9 @@ def build(ctx):
     C = os.path.join(HERE, 'c07.c')
     jobs = [
         Job('ib.grow', C, 'h_grow', route='LC', enforce='input_buffer_grow', loops=True, nloops=3, timeout=600, target='input_buffer::grow', source=PP),
-        Job('ib.try_put_token', C, 'h_put', route='LC', enforce='input_buffer_try_put_token', replace=['input_buffer_grow'], timeout=900,
+        Job('ib.try_put_token', C, 'h_put', route='LC', replace=['input_buffer_grow'], timeout=900,
             target='input_buffer::try_put_token (modular: grow replaced by its proved contract)', source=PP),
-        Job('ib.next_token', C, 'h_next', route='LF', enforce='input_buffer_try_to_spawn_task_for_next_token', timeout=600,
+        Job('ib.next_token', C, 'h_next', route='LF', timeout=600,
             target='input_buffer::try_to_spawn_task_for_next_token', source=PP),
         Job('ib.ctor', C, 'h_ctor', route='LC', replace=['input_buffer_grow'], target='input_buffer::input_buffer + get_ordered_token', source=PP),
     ]
